@@ -10,7 +10,9 @@
         lists are comma separated (`_` = empty), options use `-`, rationals are `num/den`, booleans 0/1,
         silent tracks are `s`, an alternativeValueSet is `label:gain:mute:posOff`.
         track specs in the output: `D<i>` direct, `S` silent, `M(<spec>|gain|delay)`, `X[<spec>+<spec>..]` mix, `G(<spec>|gain)`.
-   out: `ok <item> ; <item> ...` (items in selection order) | `err <kind>` | `bad-op`. -/
+        `W` instead of `R ..`                      request: the validation predicates of the document
+   out: `ok <item> ; <item> ...` (items in selection order) | `err <kind>` | `bad-op`;
+        for `W`: `wf <multitreeOK 0|1> <wrappedNonempty 0|1>`. -/
 import Earverif.Model.SelectItems
 import Earverif.Driver.Util
 open Earverif.Adm Earverif.Driver
@@ -51,11 +53,13 @@ structure Req where
   prog : Option Nat := none
   sel : List Nat := []
   seenR : Bool := false
+  wfOnly : Bool := false
 
 def addSeg (r : Req) (ws : List String) : Option Req :=
   let a := r.adm
   match ws with
   | ["R", p, s] => do some { r with prog := ← pOpt pNat p, sel := ← pList pNat s, seenR := true }
+  | ["W"] => some { r with seenR := true, wfOnly := true }
   | ["P", k, c, sc, av] => do
     let p : Programme := ⟨← pNat k, ← pList pNat c, ← pOpt pNat sc, ← pList pNat av⟩
     some { r with adm := { a with programmes := a.programmes ++ [p] } }
@@ -140,6 +144,7 @@ def answer (line : String) : String :=
     let a := r.adm
     let okProg := match r.prog with | none => true | some p => p < a.programmes.length
     if !r.seenR || !a.refsInRange || !okProg || !r.sel.all (· < a.objects.length) then "bad-op"
+    else if r.wfOnly then s!"wf {sBool (multitreeOK a.fmt)} {sBool (wrappedNonempty a.fmt)}"
     else
       match selectRenderingItems a r.prog r.sel with
       | .error e => "err " ++ showErr e
